@@ -51,6 +51,10 @@ DOCS = [
     ('html.parser', '<html><body><form><input type="radio" name="Size" id="z1"><input type="radio" name="Size" id="z2">'
      '<input type="radio" name="size" id="z3" checked><input type="radio" name="size" id="z4"><input type="radio" name="size " id="z5"></form>'
      '<form><input type="radio" name="k" id="z6" checked><input type="radio" name="K" id="z7"><input type="radio" name="k" id="z8"></form></body></html>'),
+    # XHTML through the XML parser: attribute names and the type keyword are case-sensitive there (CHECKED is not checked, RADIO not radio)
+    ('xml', '<html xmlns="http://www.w3.org/1999/xhtml"><body><form><input type="radio" name="g" id="y1"/><input type="radio" name="g" id="y2" CHECKED=""/>'
+     '<input type="RADIO" name="g" id="y3" checked=""/><input type="SUBMIT" id="y4"/><input type="submit" id="y5"/></form>'
+     '<form><input type="radio" name="g" id="y6" CHECKED=""/><input type="radio" name="g" id="y7"/></form></body></html>'),
 ]
 NS = {'x': 'urn:x'}
 
